@@ -32,6 +32,8 @@ DOT_DOCS = [
     ("emphasis", "Some **bold...** and *...italic* and ~~strike...~~ here.. and . . . spaced.\n"),
     ("numbers", "Version 1...2 and 3... 4 and a...\n\n1. item...\n2. next ...\n"),
     ("multiline_tags", "A {# todo: fix this...\nlater #} b... and {% tag a=\"x...\"\n   b=1 %} text... then {{ v...\n|f }} end.\n\n- item {# in...\n  list #} more...\n"),
+    # dots that are not an ellipsis where they stand (after a comma / a full stop) but may be wrapped to the start of a line
+    ("wrap_to_line_start", "aaaa bbbb cccc dddd, ...eeee ffff gggg hhhh. ...iiii jjjj kkkk llll mmmm; ...nnnn oooo pppp qqqq rrrr ssss.\n\n- item text goes on, ...and on and on and on, ...and ends.\n"),
     ("tag_after_break", "line one...\n{% t x=\"...\" %} line two...\nline three {# c... #}\n"),
 ]
 
